@@ -12,6 +12,11 @@
 //!   Poseidon2 Merkle trees and duplex challenger. Circuit: `get_challenges_circuit` +
 //!   `verify_circuit` with the in-circuit challenger, PoW checks, in-circuit index sampling and
 //!   all MMCS openings. Honest proof and single-element alterations; verdicts must agree.
+//!
+//! Corpus files may carry `"expect_honest": "accept"` (regression cases of a repaired "native
+//! accepts, circuit refuses" defect, e.g. C07-F4: a proof without fold phase): then the honest
+//! proof must be accepted by both real verifiers in both modes and every final-polynomial
+//! alteration refused by both (class `<mode>:regression:<what>:<file>` otherwise).
 
 use std::collections::{BTreeMap, VecDeque};
 use std::io::Write;
@@ -301,6 +306,14 @@ pub fn native_arith(c: &Case) -> String {
 // ------------------------------------------------------------------------------------------
 // Circuit arithmetic-only run.
 
+/// A cap with an arbitrary number of roots, as a deserialised proof can carry it
+/// (`MerkleCap::new` asserts a power of two; the wire format does not).
+fn raw_cap(template: &Cap, roots: Vec<[F; DIGEST_ELEMS]>) -> Option<Cap> {
+    let mut v = serde_json::to_value(template).ok()?;
+    *v.get_mut("cap")? = serde_json::to_value(&roots).ok()?;
+    serde_json::from_value(v).ok()
+}
+
 fn dummy_cap() -> Cap {
     MerkleCap::new(vec![[F::ZERO; DIGEST_ELEMS]])
 }
@@ -367,7 +380,9 @@ pub fn build_arith(c: &Case) -> Result<ArithCircuit, String> {
     let betas_t: Vec<Target> = (0..c.betas.len()).map(|_| builder.public_input()).collect();
     let total: usize = fri_targets.log_arities.iter().sum();
     let log_max_height = total + c.params.log_final_poly_len + c.params.log_blowup;
-    if log_max_height > 31 {
+    // `verify_circuit` (pcs/fri/targets.rs) refuses these before it calls `verify_fri_circuit`: the
+    // index must fit the field's bit width, and (repo fix c030fca, F9i) the LDE domain must exist
+    if log_max_height > 31 || log_max_height > F::TWO_ADICITY {
         return Err("build-err".into());
     }
     let bits_t: Vec<Vec<Target>> =
@@ -549,13 +564,23 @@ pub fn gen_scenario(rng: &mut Rng, max_log_size: usize) -> Scenario {
             }
         }
     }
-    Scenario {
+    let mut s = Scenario {
         params: Params { log_blowup, log_final_poly_len, max_log_arity, num_queries },
         commit_pow_bits: rng.range(0, 3),
         query_pow_bits: rng.range(0, 4),
         batches,
         data_seed: rng.next(),
+    };
+    // a proof without fold phase: every matrix has height one and the final polynomial is constant
+    // (one in eight of the scenarios with a constant final polynomial, about 1 in 24 overall)
+    if rng.chance(1, 8) && log_final_poly_len == 0 {
+        for b in s.batches.iter_mut() {
+            for m in b.iter_mut() {
+                m.0 = 0;
+            }
+        }
     }
+    s
 }
 
 pub struct Honest {
@@ -1127,6 +1152,70 @@ pub fn alter_shape(c: &mut Case, kind: usize, rng: &mut Rng) -> Option<String> {
             c.batches[b][m].log_size += 1;
             Some(format!("claimed log_size+1 b{b} m{m}{}", if is_const { " (zero-quotient matrix)" } else { "" }))
         }
+        20 | 21 => {
+            // F9i regression (repo fix c030fca): the verifier's log_blowup is raised so that
+            // log_max_height lands just above the two-adicity (kind 20: 28..=31, formerly the
+            // two_adic_generator assertion) or above the bit width (kind 21). Native:
+            // GlobalMaxHeightTooLarge; circuit side: InvalidProofShape.
+            let total: usize = c.queries[0].phases.iter().map(|p| p.log_arity).sum();
+            let base = total + c.params.log_final_poly_len;
+            let target = if kind == 20 { F::TWO_ADICITY + 1 + rng.usize(4) } else { 32 + rng.usize(3) };
+            c.params.log_blowup = target.checked_sub(base)?;
+            Some(format!("params.log_blowup raised: log_max_height {target}"))
+        }
+        22 => {
+            // F9d regression (repo fix fc0321f): a prover-supplied log_arity far beyond anything the
+            // sibling vector can match, in every query (the schedule is read from query 0). Target
+            // allocation used to shift by it (>= 64: overflow panic; 26..62: 2^log_arity targets).
+            let np = c.queries[0].phases.len();
+            if np == 0 {
+                return None;
+            }
+            let ph = rng.usize(np);
+            let la = *rng.pick(&[40usize, 63, 64, 200, 255]);
+            for q in c.queries.iter_mut() {
+                if let Some(x) = q.phases.get_mut(ph) {
+                    x.log_arity = la;
+                }
+            }
+            Some(format!("huge log_arity {la} in phase {ph} of every query"))
+        }
+        23 => {
+            // No fold phase with a final polynomial of length 2 (the real prover cannot make one:
+            // `prove_fri` asserts log_min_height > log_final_poly_len + log_blowup). Needs a proof
+            // without phases whose matrices all have zero quotients (claimed = opened in every
+            // query): every log size and log_final_poly_len are raised by one, the final
+            // polynomial becomes [0,0] (both must accept) or [0,c] / [c,0], c != 0 (both must
+            // refuse: the query point is non-zero).
+            if c.queries.iter().any(|q| !q.phases.is_empty()) || c.params.log_final_poly_len != 0 {
+                return None;
+            }
+            for (b, bb) in c.batches.iter().enumerate() {
+                for (m, mc) in bb.iter().enumerate() {
+                    let zero_q = c.queries.iter().all(|q| {
+                        q.opened.get(b).and_then(|x| x.get(m)).map(|o| mc.points.iter().all(|(_, _, vs)| vs.len() == o.len() && vs.iter().zip(o).all(|(v, o)| *v == Challenge::from(*o)))).unwrap_or(false)
+                    });
+                    if !zero_q || mc.log_size != 0 {
+                        return None;
+                    }
+                }
+            }
+            for bb in c.batches.iter_mut() {
+                for mc in bb.iter_mut() {
+                    mc.log_size = 1;
+                }
+            }
+            c.params.log_final_poly_len = 1;
+            let mut coef = Challenge::ZERO;
+            bump_ef(&mut coef, rng);
+            let (fp, tag) = match rng.usize(3) {
+                0 => (vec![Challenge::ZERO, Challenge::ZERO], "zero"),
+                1 => (vec![Challenge::ZERO, coef], "[0,c]"),
+                _ => (vec![coef, Challenge::ZERO], "[c,0]"),
+            };
+            c.final_poly = fp;
+            Some(format!("no-phase proof lifted to final poly length 2: {tag}"))
+        }
         _ => {
             // kind 17 followed by a wrong claimed value for the moved matrix: its reduced opening is
             // then non-zero at a height no phase reaches. Both sides must reject (the circuit through
@@ -1146,7 +1235,7 @@ pub fn alter_shape(c: &mut Case, kind: usize, rng: &mut Rng) -> Option<String> {
         }
     }
 }
-pub const N_SHAPE_KINDS: usize = 20;
+pub const N_SHAPE_KINDS: usize = 24;
 
 /// Single-element alterations of the real proof / commitments / claims for the full mode.
 pub fn alter_full(commitments: &mut [Cap], claims: &mut [Vec<MatClaim>], proof: &mut RealProof, kind: usize, rng: &mut Rng) -> Option<String> {
@@ -1322,6 +1411,10 @@ pub fn main(args: &crate::Args) {
     let mut full_evals = 0u64;
 
     // (scenario, origin, explicit shape kinds, explicit full-shape kinds, force full)
+    // corpus files with `"expect_honest": "accept"` are regression cases of a repaired
+    // "native accepts, circuit refuses" defect: the honest proof must be accepted by *both* real
+    // verifiers in both modes and every final-polynomial alteration refused by both
+    let mut expect_accept: std::collections::BTreeSet<String> = Default::default();
     let mut scenarios: Vec<(Scenario, String, Vec<usize>, Vec<usize>)> = vec![];
     if let Some(dir) = args.opt("corpus") {
         let mut files: Vec<_> = std::fs::read_dir(&dir).map(|d| d.filter_map(|e| e.ok()).map(|e| e.path()).collect()).unwrap_or_default();
@@ -1332,7 +1425,11 @@ pub fn main(args: &crate::Args) {
             let v = if v.get("scenario").is_some() { v } else { v["replay"].clone() };
             let kinds = |k: &str| v[k].as_array().map(|a| a.iter().filter_map(|x| x.as_u64().map(|y| y as usize)).collect()).unwrap_or_default();
             if let Some(s) = Scenario::from_json(&v["scenario"]) {
-                scenarios.push((s, format!("corpus:{}", f.file_name().unwrap().to_string_lossy()), kinds("shape_kinds"), kinds("full_shape_kinds")));
+                let origin = format!("corpus:{}", f.file_name().unwrap().to_string_lossy());
+                if v["expect_honest"].as_str() == Some("accept") {
+                    expect_accept.insert(origin.clone());
+                }
+                scenarios.push((s, origin, kinds("shape_kinds"), kinds("full_shape_kinds")));
             }
         }
     }
@@ -1365,6 +1462,9 @@ pub fn main(args: &crate::Args) {
         bump(&mut hist, format!("rollins={rollins}"));
         if heights.contains(&0) {
             bump(&mut hist, "has_height_one_matrix".into());
+        }
+        if schedule.is_empty() {
+            bump(&mut hist, "no_fold_phase".into());
         }
         if s.batches.iter().flatten().any(|m| m.3 == 1) {
             bump(&mut hist, "two_points_per_matrix".into());
@@ -1416,12 +1516,25 @@ pub fn main(args: &crate::Args) {
         if n0 != "ok" || c0 != "ok" {
             bump(&mut hist, "arith:honest-not-accepted-by-both".into());
         }
+        let regression = expect_accept.contains(origin);
+        let regress = |mode: &str, what: &str, nat: &str, cir: &str, violations: &mut Vec<Value>| {
+            violations.push(json!({"property": "C07", "kind": "regression-expectation",
+                "class": format!("{mode}:regression:{what}:{}", origin.trim_start_matches("corpus:")),
+                "detail": {"native": nat, "circuit": cir, "alteration": what},
+                "replay": {"scenario": s.to_json(), "mode": mode, "alteration": what, "expect_honest": "accept"}}));
+        };
+        if regression && (n0 != "ok" || c0 != "ok") {
+            regress("arith", "honest-not-accepted-by-both", &n0, &c0, &mut violations);
+        }
         let mut k = 1usize;
         for a in 0..n_alt {
             let mut c = base.clone();
             let kind = a % N_VALUE_KINDS;
             if let Some(label) = alter_value(&mut c, kind, &mut arng) {
-                emit(&c, &label, k, &mut cache, &mut violations, &mut hist, json!({}));
+                let (na, ca) = emit(&c, &label, k, &mut cache, &mut violations, &mut hist, json!({}));
+                if regression && kind == 2 && (na == "ok" || ca == "ok") {
+                    regress("arith", "altered-final-poly-not-rejected-by-both", &na, &ca, &mut violations);
+                }
                 evaluations += 1;
                 distinct.insert(c.line(""));
                 k += 1;
@@ -1470,6 +1583,9 @@ pub fn main(args: &crate::Args) {
                 }
             };
             report(&nat, &cir, "honest", &mut violations, json!({}));
+            if regression && (nat != "ok" || cir != "ok") {
+                regress("full", "honest-not-accepted-by-both", &nat, &cir, &mut violations);
+            }
             if let Some(fc) = &fc {
                 if cir == "ok" {
                     for a in 0..n_full_alt {
@@ -1481,13 +1597,18 @@ pub fn main(args: &crate::Args) {
                             full_evals += 1;
                             bump(&mut hist, format!("full:{}:{}", label.split(' ').next().unwrap_or(""), coarse(&nat)));
                             report(&nat, &cir, &label, &mut violations, json!({}));
+                            if regression && kind == 4 && (nat == "ok" || cir == "ok") {
+                                regress("full", "altered-final-poly-not-rejected-by-both", &nat, &cir, &mut violations);
+                            }
                         }
                     }
                 }
             }
             // whole-shape alterations in full mode: the circuit is rebuilt from the altered proof,
             // the native verifier keeps the scenario's parameters
-            let fkinds: Vec<usize> = if !full_shape_kinds.is_empty() { full_shape_kinds.clone() } else if cir == "ok" { vec![0, 1] } else { vec![] };
+            // kinds 2..=4 are regression cases of repaired panics (F9i c030fca, F9e 069da9d): both
+            // verifiers must refuse, the circuit side with an error (a panic is a violation here)
+            let fkinds: Vec<usize> = if !full_shape_kinds.is_empty() { full_shape_kinds.clone() } else if cir == "ok" { vec![0, 1, 2 + gi % 3] } else { vec![] };
             for kind in fkinds {
                 let mut proof = h.proof.clone();
                 let mut s2 = s.clone();
@@ -1499,13 +1620,34 @@ pub fn main(args: &crate::Args) {
                         proof.query_proofs.pop();
                         "shape:one query fewer than params.num_queries"
                     }
-                    _ => {
+                    1 => {
                         let m = schedule.iter().max().copied().unwrap_or(0);
                         if m < 2 {
                             continue;
                         }
                         s2.params.max_log_arity = m - 1;
                         "shape:params.max_log_arity below the proof's schedule"
+                    }
+                    2 => {
+                        // log_max_height one above the two-adicity (28 on BabyBear: inside the 31-bit
+                        // bound, formerly two_adic_generator's assertion in verify_circuit)
+                        let base = schedule.iter().sum::<usize>() + s.params.log_final_poly_len;
+                        s2.params.log_blowup = F::TWO_ADICITY + 1 - base;
+                        "shape:params.log_blowup raised above the two-adicity"
+                    }
+                    3 => {
+                        // a commit-phase commitment whose cap has 3 entries (not a power of two)
+                        let Some(c0) = proof.commit_phase_commits.first().cloned() else { continue };
+                        let r = c0.roots()[0];
+                        let Some(cap) = raw_cap(&c0, vec![r, r, r]) else { continue };
+                        proof.commit_phase_commits[0] = cap;
+                        "shape:commit-phase cap with 3 entries"
+                    }
+                    _ => {
+                        let Some(c0) = proof.commit_phase_commits.first().cloned() else { continue };
+                        let Some(cap) = raw_cap(&c0, vec![]) else { continue };
+                        proof.commit_phase_commits[0] = cap;
+                        "shape:commit-phase cap empty"
                     }
                 };
                 let pcs2 = make_pcs(&h.perm, &s2);
